@@ -163,16 +163,16 @@ def doubleWriteCorruptionOld (s : Oam) : Option Oam :=
   else (patchRow fWrite s.oam rowStart).map fun m => { s with oam := m }
 
 /-- the `else` branch of `Corrupt`: `if m.doubleWrite {…}; if m.write {…}` -/
-def corruptWrites (s : Oam) : Option Oam := do
-  let t ← if s.doubleWrite then doubleWriteCorruption s else some s
+def corruptWrites (s : Oam) : Option Oam :=
+  (if s.doubleWrite then doubleWriteCorruption s else some s).bind fun t =>
   if t.write then writeCorruption t else some t
 
 /-- `Corrupt` -/
 def corruptStep (s : Oam) : Option Oam :=
   if !s.read && !s.write then some s
-  else do
-    let s1 ← if s.read && s.write then readWriteCorruption s else some s
-    let s2 ← if s1.read then readCorruption s1 else corruptWrites s1
+  else
+    (if s.read && s.write then readWriteCorruption s else some s).bind fun s1 =>
+    (if s1.read then readCorruption s1 else corruptWrites s1).bind fun s2 =>
     some { s2 with read := false, write := false, doubleWrite := false }
 
 /-- `EnterMode2` -/
@@ -180,9 +180,9 @@ def enterMode2 (s : Oam) : Oam := { s with corrupt := true }
 /-- `ExitMode2` -/
 def exitMode2 (s : Oam) : Oam := { s with corrupt := false }
 
-/-- `Read` (the flag is set before the index expression is evaluated, but a panic ends the
+/-- `Read`, called `cpuRead` here because `read` is a field (the flag is set before the index expression is evaluated, but a panic ends the
     machine, so only the non-crashing result carries a state) -/
-def read (s : Oam) (addr : Addr) : Option (Oam × Byte) :=
+def cpuRead (s : Oam) (addr : Addr) : Option (Oam × Byte) :=
   if s.dmaRunning then some (s, 0xff)
   else
     let s1 := if s.corrupt then { s with read := true } else s
@@ -195,8 +195,8 @@ def writeFlags (s : Oam) : Oam :=
     (if s.write then { s with doubleWrite := true } else { s with write := true })
   else s
 
-/-- `Write` -/
-def write (s : Oam) (addr : Addr) (value : Byte) : Option Oam :=
+/-- `Write` (called `cpuWrite` here because `write` is a field) -/
+def cpuWrite (s : Oam) (addr : Addr) (value : Byte) : Option Oam :=
   let s1 := writeFlags s
   if addr.toNat < 0xfea0 then
     (st s1.oam (sub16 addr.toNat 0xfe00) value).map fun m => { s1 with oam := m }
@@ -252,8 +252,8 @@ inductive Op where
 
 /-- state after one exported call (`none` = the call panicked) -/
 def step (s : Oam) : Op → Option Oam
-  | .read a => (read s a).map (·.1)
-  | .write a v => write s a v
+  | .read a => (cpuRead s a).map (·.1)
+  | .write a v => cpuWrite s a v
   | .ppuRead a => (ppuRead s a).map (·.1)
   | .trigger a => some (triggerWriteCorruption s a)
   | .corrupt => corruptStep s
